@@ -53,7 +53,7 @@ Definition rop_of (p : rop_spec) : rop :=
 (* observation of one outgoing request, headers projected on the case's key list *)
 Record wobs := mkW {
   wo_method : bytes; wo_path : bytes; wo_query : bytes; wo_headers : amap;
-  wo_cookies : list (bytes * bytes); wo_body : option bytes
+  wo_cookies : list (bytes * bytes); wo_body : option bytes; wo_close : bool
 }.
 
 (* a logged call: (id, attempt, status or -1, error code or 0) *)
@@ -116,7 +116,7 @@ Definition wire_eqb (keys : list bytes) (w : wire) (o : wobs) : bool :=
   bytes_eqb (w_method w) (wo_method o) && bytes_eqb (w_path w) (wo_path o) && bytes_eqb (w_query w) (wo_query o) &&
   list_eqb entry_eqb (project_headers keys (w_headers w)) (wo_headers o) &&
   list_eqb pair_eqb (w_cookies w) (wo_cookies o) &&
-  opt_bytes_eqb (w_body w) (wo_body o).
+  opt_bytes_eqb (w_body w) (wo_body o) && Bool.eqb (w_close w) (wo_close o).
 
 Definition zopt (o : option Z) (dflt : Z) : Z := match o with Some z => z | None => dflt end.
 Definition call_eqb (k : call) (o : ocall) : bool :=
